@@ -3,6 +3,7 @@ A candidate is accepted only if the same violation class
 (property, invariant, signature) recurs."""
 import copy
 
+from . import adapter as A
 from . import descr
 from .run import replay
 
@@ -12,6 +13,10 @@ def _fails(prop, ops, vclass, budget):
         return False
     budget[0] -= 1
     try:
+        # pristine library state for every candidate (module-level caches inside
+        # PyFVTool would otherwise carry over from the previous candidate and a
+        # shrunk trace might fail only because of them)
+        A.reset()
         r = replay(prop, ops)
     except Exception:
         return False
